@@ -130,6 +130,81 @@ Section Measure.
       + simpl. destruct (Nat.eqb a b); ring.
       + rewrite <- HPB. destruct (Nat.eqb a b); ring.
   Qed.
+
+  (* ---------------- consequences: membership, support, uniformity *)
+  Lemma memb_nonempty a r : memb a r = true -> r <> [].
+  Proof. destruct r; [discriminate | congruence]. Qed.
+
+  Theorem diff_member A B a : NoDup A -> ~ prob (diff_tree mu A B) a == 0 -> memb a A = true /\ memb a B = false.
+  Proof. intros Hnd H. rewrite diff_law in H by assumption. destruct (memb a A), (memb a B); simpl in H; try (exfalso; apply H; reflexivity). split; reflexivity. Qed.
+
+  Theorem diff_support A B a : NoDup A -> memb a A = true -> memb a B = false -> 0 < prob (diff_tree mu A B) a.
+  Proof.
+    intros Hnd HA HB. rewrite diff_law by assumption. rewrite HA, HB. simpl.
+    pose proof (size_pos A (memb_nonempty _ _ HA)). pose proof (mu_pos a). apply Qlt_shift_div_l; lra.
+  Qed.
+
+  (* uniform w.r.t. mu on the result:  P(a) / P(a') = mu a / mu a'  *)
+  Theorem diff_uniform A B a a' : NoDup A -> memb a A = true -> memb a B = false -> memb a' A = true -> memb a' B = false ->
+    prob (diff_tree mu A B) a * mu a' == prob (diff_tree mu A B) a' * mu a.
+  Proof. intros Hnd H1 H2 H3 H4. rewrite !diff_law by assumption. rewrite H1, H2, H3, H4. simpl. unfold Qdiv. ring. Qed.
+
+  Theorem union_member regs a : (forall r, In r regs -> NoDup r /\ r <> []) -> regs <> [] ->
+    ~ prob (union_tree mu regs) a == 0 -> exists r, In r regs /\ memb a r = true.
+  Proof.
+    intros Hr Hne H. rewrite union_law in H by assumption. destruct (Nat.ltb 0 (count regs a)) eqn:E; [|exfalso; apply H; reflexivity].
+    apply Nat.ltb_lt in E. unfold count in E. destruct (filter (memb a) regs) as [|r l] eqn:F; [simpl in E; lia|].
+    exists r. assert (In r (filter (memb a) regs)) by (rewrite F; left; reflexivity). apply filter_In in H0. exact H0.
+  Qed.
+
+  Lemma count_pos regs a r : In r regs -> memb a r = true -> (0 < count regs a)%nat.
+  Proof.
+    intros Hin Hm. unfold count. assert (In r (filter (memb a) regs)) by (apply filter_In; split; assumption).
+    destruct (filter (memb a) regs); [contradiction | simpl; lia].
+  Qed.
+
+  Theorem union_support regs a r : (forall r, In r regs -> NoDup r /\ r <> []) -> In r regs -> memb a r = true ->
+    0 < prob (union_tree mu regs) a.
+  Proof.
+    intros Hr Hin Hm. assert (Hne : regs <> []) by (destruct regs; [contradiction | congruence]).
+    rewrite union_law by assumption. pose proof (count_pos _ _ _ Hin Hm) as Hc. apply Nat.ltb_lt in Hc. rewrite Hc.
+    assert (0 < total mu regs) by (apply total_pos; [assumption | intros r' Hr'; apply (Hr r' Hr')]).
+    pose proof (mu_pos a). apply Qlt_shift_div_l; lra.
+  Qed.
+
+  (* the union sampler weights by the measure of the UNION: every atom of the union has probability
+     mu a / (sum of operand sizes), whatever the number of operands containing it *)
+  Theorem union_uniform regs a a' r r' : (forall r, In r regs -> NoDup r /\ r <> []) ->
+    In r regs -> memb a r = true -> In r' regs -> memb a' r' = true ->
+    prob (union_tree mu regs) a * mu a' == prob (union_tree mu regs) a' * mu a.
+  Proof.
+    intros Hr Hin Hm Hin' Hm'. assert (Hne : regs <> []) by (destruct regs; [contradiction | congruence]).
+    rewrite !union_law by assumption.
+    pose proof (count_pos _ _ _ Hin Hm) as Hc. apply Nat.ltb_lt in Hc. rewrite Hc.
+    pose proof (count_pos _ _ _ Hin' Hm') as Hc'. apply Nat.ltb_lt in Hc'. rewrite Hc'. unfold Qdiv. ring.
+  Qed.
+
+  Theorem inter_member A B a : NoDup A -> NoDup B -> ~ prob (inter_tree mu A B) a == 0 -> memb a A = true /\ memb a B = true.
+  Proof. intros HA HB H. rewrite inter_law in H by assumption. destruct (memb a A), (memb a B); simpl in H; try (exfalso; apply H; reflexivity). split; reflexivity. Qed.
+
+  Theorem inter_support A B a : NoDup A -> NoDup B -> memb a A = true -> memb a B = true -> 0 < prob (inter_tree mu A B) a.
+  Proof.
+    intros HA HB H1 H2. rewrite inter_law by assumption. rewrite H1, H2. simpl.
+    pose proof (size_pos A (memb_nonempty _ _ H1)) as SA. pose proof (size_pos B (memb_nonempty _ _ H2)) as SB.
+    pose proof (size_nonneg (filter (fun b => negb (memb b B)) A)) as SF. pose proof (mu_pos a).
+    assert (0 < 1 / size mu A) by (apply Qlt_shift_div_l; lra).
+    assert (0 <= size mu (filter (fun b => negb (memb b B)) A) / size mu A) by (apply Qle_shift_div_l; lra).
+    assert (0 < 1 / size mu B) by (apply Qlt_shift_div_l; lra).
+    set (X := 1 / size mu A) in *. set (Y := size mu (filter (fun b => negb (memb b B)) A) / size mu A) in *.
+    set (Z := 1 / size mu B) in *. set (m := mu a) in *.
+    assert (0 <= Y * Z) by (apply Qmult_le_0_compat; lra).
+    clearbody X Y Z m. nra.
+  Qed.
+
+  Theorem inter_uniform A B a a' : NoDup A -> NoDup B ->
+    memb a A = true -> memb a B = true -> memb a' A = true -> memb a' B = true ->
+    prob (inter_tree mu A B) a * mu a' == prob (inter_tree mu A B) a' * mu a.
+  Proof. intros HA HB H1 H2 H3 H4. rewrite !inter_law by assumption. rewrite H1, H2, H3, H4. simpl. ring. Qed.
 End Measure.
 
 (* ---------------- point sets *)
